@@ -223,8 +223,8 @@ func TestRefusalSweep(t *testing.T) {
 		fields := []string{"0", "0", "0", "1", "1", "*"}
 		fields[f] = term
 		text := strings.Join(fields, " ")
-		if s, err := optSeconds.parse(text); err == nil {
-			t.Fatalf("C04 refusal violated: %q (class %s) was accepted and given a meaning (%+v)\ncase: {parser=seconds expr=%q}", text, class, s, text)
+		if s, err, pv := safeParse(optSeconds, text); err == nil || pv != nil {
+			t.Fatalf("C04 refusal violated: %q (class %s) was not refused with an error: schedule=%+v panic=%v\ncase: {parser=seconds expr=%q}", text, class, s, pv, text)
 		}
 		sec.Case(true, vk.FP(text), "refuse."+class)
 		sec.Sample(func() any { return fmt.Sprintf("{parser=seconds expr=%q class=%s}", text, class) })
